@@ -47,13 +47,15 @@ impl Model {
         let mut map: BTreeMap<Uuid, ObstData> = BTreeMap::new();
         let mut fshobstmap: BTreeMap<Uuid, f32> = BTreeMap::new();
 
+        // Las tablas climáticas son de solo lectura: un pánico previo con el cerrojo tomado
+        // no las deja en un estado inconsistente, así que ignoramos el envenenamiento
         let latitude = CLIMATEMETADATA
             .lock()
-            .unwrap()
+            .unwrap_or_else(|e| e.into_inner())
             .get(&self.meta.climate)
             .unwrap()
             .latitude;
-        let julyraddata = JULYRADDATA.lock().unwrap();
+        let julyraddata = JULYRADDATA.lock().unwrap_or_else(|e| e.into_inner());
         let raddata = match julyraddata.get(&self.meta.climate) {
             Some(data) => data,
             None => return fshobstmap,
